@@ -22,6 +22,8 @@ CLAIMED = {
          "DESIGN.md 5/C19", "model of each derived network + build lemma (Coq) + correspondence + set-theoretic oracle"),
  "C06": ("Theorems: C06_degree_memberships, C06_size_members, C06_handshake and C06_handshake_order (double counting, for every state satisfying the C01 invariant, hence every reachable state), C06_formats_agree, C06_filterby_exact (all 7 modes), C06_isolates_singletons_empty, C06_neighbors_spec, C06_lookup_spec, C06_maximal_spec (membership-intersection test <-> no strict superset). Liveness is by construction of the model (a statistic is a function of the current state) and is checked against the code by the oracle, which holds views and stats across mutations. PARTIAL: duplicates, filterby_attr, neighbors(s>1), the directed statistics and the pandas/numpy containers are covered by correspondence/oracle only; the known open finding about directed neighbors/duplicates/lookup is recorded in known_findings.json.",
          "DESIGN.md 5/C06", "definitional + double-counting + filter exactness theorems (Coq) + query correspondence + definition/liveness oracle"),
+ "C16": ("Theorems, for all n, m and sizes (no bound): C16_comb_decoder_spec (_index_to_edge_comb(index, n, m) is the index-th m-combination of range(n) in lexicographic order; the two nested loops are transcribed with fuel n), C16_comb_bijection, C16_prod_bijection (base-n digits), C16_partition_bijection (mixed radix), C16_skip_sampling and C16_sampled_edges_distinct (for every sequence of geometric draws >= 1 the visited indices, hence the sampled edges, are pairwise distinct and in range). Correspondence: the three decoders exhaustively on a grid; uniform_erdos_renyi_hypergraph and fast_random_hypergraph re-run in the model from the recorded geometric draws. PARTIAL: the other generator contracts (node sets, sizes, p in {0,1}, complete hypergraphs, configuration-model degrees, lattice/star/sunflower shapes, closure of generated complexes, flag complexes = cliques) are decided by the oracle on parameter grids, not by theorems.",
+         "DESIGN.md 5/C16", "unranking theorems (Coq) + exhaustive decoder tables + generator replay from recorded draws + contract oracle"),
 }
 NOTE = ("trusted: Coq 8.16.1 kernel and vm_compute; no axioms (Print Assumptions: Closed under the global context); "
         "harness generators/serialiser/observation; CPython containers and numeric libraries are environment "
